@@ -611,9 +611,10 @@ def _run_info(case, out):
 def _run_reseed(case, out):
     from pydsol.core.streams import MersenneTwister, StreamSeedUpdater, SimpleStreamUpdater
     stream = MersenneTwister(case["orig"])
-    other = MersenneTwister(case["orig"] + 1)
-    # (a second stream with its own, different seed list is served by the same updater)
-    table2 = [x + 1000 for x in reversed(case["table"])]
+    other = MersenneTwister(case["orig"])
+    # (a second stream - same original seed, idle, so at times in exactly the same state as the first - with its own
+    #  seed list is served by the same updater)
+    table2 = [case["table"][0]] + [x + 1000 for x in case["table"][1:]]
     upd = StreamSeedUpdater({"s": list(case["table"]), "t": table2}) if case["updater"] == "seeded" \
         else SimpleStreamUpdater()
     ties = 0
@@ -627,11 +628,11 @@ def _run_reseed(case, out):
             if si % 2:
                 upd.update_seed("s", stream, r)
             else:
-                upd.update_seeds({"t": other, "s": stream}, r)        # the bulk entry point
+                upd.update_seeds({"s": stream, "t": other}, r)        # the bulk entry point
                 if case["updater"] == "seeded" and other.seed() != table2[r]:
                     out.fail("set_seed-fresh", {"r": r, "stream": "t", "seed": other.seed(), "want": table2[r]})
                     return
-                if [other.next_float().hex() for _ in range(2)] != \
+                if si % 4 == 0 and [other.next_float().hex() for _ in range(2)] != \
                         [f_.next_float().hex() for f_ in [MersenneTwister(other.seed())] for _ in range(2)]:
                     out.fail("reseed-with-unchanged-seed", {"r": r, "stream": "t"})
                     return
